@@ -14,7 +14,7 @@ INTERP_COMPONENTS = {
     "stub": ["UMIM client / action server (SimClient: reacts to Start/Stop action events with Started/Finished deliveries - delayed, dropped, duplicated, early)", "user (seeded external events)",
              "wall clock (datetime.now seam on virtual time)", "uuid generator", "interpreter tie-breaks (statemachine.random.choice seam)", "internal event queue wrapper (counting deque for step budgets)"],
 }
-ACTION_FAULTS = ["never", "dup", "early", "late", "no_started", "stop_reacts"]
+ACTION_FAULTS = ["never", "dup", "early", "late", "no_started", "started_late", "stop_reacts"]
 
 
 def gen_interp_scenario(d, with_faults=True, n_flows=None, instant_end=False, max_deliveries=14, **kw):
